@@ -244,7 +244,18 @@ func SameOrOnlyTipsDropped(a, b *State) (bool, string) {
 		return true, ""
 	}
 	if a.Rest != b.Rest {
-		return false, "awaiting cache or peer table differ"
+		var gone, came []string
+		for k := range a.Await {
+			if !b.Await[k] {
+				gone = append(gone, k[len(k)-12:])
+			}
+		}
+		for k := range b.Await {
+			if !a.Await[k] {
+				came = append(came, k[len(k)-12:])
+			}
+		}
+		return false, fmt.Sprintf("awaiting cache or peer table differ (awaiting entries gone %v, new %v; peer table before %s after %s)", gone, came, a.Peers, b.Peers)
 	}
 	for h := range b.Snap.Live {
 		if _, ok := a.Snap.Live[h]; !ok {
